@@ -8,11 +8,14 @@ demo=$(ls "$src"/*.rs | head -1); dn=$(basename "$demo" .rs)
 if grep -q "des_cqueue" "$demo" && ! grep -q "use des::" "$demo"; then crate=des-cqueue; else crate=des; fi
 mkdir -p $crate/tests
 git apply "$src/patch.diff" || { echo "RESULT $sd patch-does-not-apply"; exit 1; }
+if [ -n "$SKIP_SUITE" ]; then suite="skipped"; else
 suite=$(cargo test --workspace --offline 2>&1 | grep -E "^test result" | awk '{p+=$4; f+=$6} END {print p"/"f}')
+fi
 cp "$demo" $crate/tests/$dn.rs
-cargo test --offline -p $crate --test $dn > /tmp/demo_with.log 2>&1; with=$?
+cargo test --offline -p $crate --test $dn > /tmp/demo_with.$$.log 2>&1; with=$?
 git checkout -q -- .
-cargo test --offline -p $crate --test $dn > /tmp/demo_without.log 2>&1; without=$?
+cargo test --offline -p $crate --test $dn > /tmp/demo_without.$$.log 2>&1; without=$?
 rm -f $crate/tests/$dn.rs; rmdir $crate/tests 2>/dev/null
 git checkout -q -- . 
+rm -f /tmp/demo_with.$$.log /tmp/demo_without.$$.log
 echo "RESULT $sd crate=$crate suite(passed/failed)=$suite demo_with_change_exit=$with demo_without_change_exit=$without"
